@@ -1,18 +1,18 @@
 // Harness for C11: request queues are bounded FIFOs that lose, duplicate or strand nothing.
 //
-//  1 sequential  random histories (≤ 300 ops; capacities −1/0/1/2/5 changed mid-history; nil
-//                elements; every public operation incl. timed gets) on util/queue.RequestQueue and
-//                RequestDoubleQueue, compared op by op with the Lean model (drv_c11 runs
-//                Golib/Queue/Seq.lean): return value, Failed/Overflowed callback arguments, Size().
-//                On a disagreement the property is evaluated directly on the implementation
-//                (FIFO order, refusal/eviction accounting, boundedness, conservation by element
-//                identity) to decide between `property` and `correspondence`.
-//  2 concurrent  k producers × m consumers on one queue, consumers started first (they block before
-//                the first producer arrives); exactly-once, per-producer order, nobody stranded.
-//  3 timed gets  GetTimeout on an empty queue with timeouts 0/1/10/50 ms: empty-handed only after
-//                the timeout elapsed (same millisecond clock the code uses); generous upper
-//                tolerance is reported, not asserted.
-//  4 known finding replay: a nil element is swallowed by GetTimeout.
+//	1 sequential  random histories (≤ 300 ops; capacities −1/0/1/2/5 changed mid-history; nil
+//	              elements; every public operation incl. timed gets) on util/queue.RequestQueue and
+//	              RequestDoubleQueue, compared op by op with the Lean model (drv_c11 runs
+//	              Golib/Queue/Seq.lean): return value, Failed/Overflowed callback arguments, Size().
+//	              On a disagreement the property is evaluated directly on the implementation
+//	              (FIFO order, refusal/eviction accounting, boundedness, conservation by element
+//	              identity) to decide between `property` and `correspondence`.
+//	2 concurrent  k producers × m consumers on one queue, consumers started first (they block before
+//	              the first producer arrives); exactly-once, per-producer order, nobody stranded.
+//	3 timed gets  GetTimeout on an empty queue with timeouts 0/1/10/50 ms: empty-handed only after
+//	              the timeout elapsed (same millisecond clock the code uses); generous upper
+//	              tolerance is reported, not asserted.
+//	4 known finding replay: a nil element is swallowed by GetTimeout.
 package main
 
 import (
@@ -55,9 +55,9 @@ func unelem(v interface{}) int {
 // ---------------------------------------------------------------- sequential histories
 
 type qop struct {
-	Kind string `json:"k"` // p f g n t x c s k   (double: p1 p2 f1 f2 g n t x c s s1 s2 k1 k2)
-	X    int    `json:"x"` // element / capacity / extra polls
-	Y    int    `json:"y"` // second capacity (double queue)
+	Kind string `json:"k"`            // p f g n t x c s k   (double: p1 p2 f1 f2 g n t x c s s1 s2 k1 k2)
+	X    int    `json:"x"`            // element / capacity / extra polls
+	Y    int    `json:"y"`            // second capacity (double queue)
 	Ms   int    `json:"ms,omitempty"` // timeout handed to the implementation (t)
 }
 
@@ -84,7 +84,7 @@ type mirror struct {
 }
 
 func (m *mirror) room(i int) bool { return m.cap[i] <= 0 || len(m.items[i]) < m.cap[i] }
-func (m *mirror) size() int     { return len(m.items[0]) + len(m.items[1]) }
+func (m *mirror) size() int       { return len(m.items[0]) + len(m.items[1]) }
 func (m *mirror) head() (int, bool) {
 	for i := 0; i < 2; i++ {
 		if len(m.items[i]) > 0 {
@@ -99,10 +99,10 @@ type callbacks struct {
 }
 
 type impl struct {
-	q   *queue.RequestQueue
-	d   *queue.RequestDoubleQueue
-	cb  callbacks
-	dbl bool
+	q    *queue.RequestQueue
+	d    *queue.RequestDoubleQueue
+	cb   callbacks
+	dbl  bool
 	cbOK bool // double queue: callbacks could be installed by reflection
 }
 
@@ -130,7 +130,7 @@ func b2s(b bool) string {
 func (im *impl) apply(o qop) (res string, size int, out vh.Outcome) {
 	im.cb.evs = nil
 	ret := ""
-	out = vh.GuardTimeout(5*time.Second, func() {
+	out = vh.GuardTimeout(3*time.Second, func() {
 		if !im.dbl {
 			q := im.q
 			switch o.Kind {
@@ -228,7 +228,7 @@ type history struct {
 	got        []string
 	sizes      []int
 	msizes     []int // the generator's mirror size after each op
-	stuck      int // index of an op that did not return, or -1
+	stuck      int   // index of an op that did not return, or -1
 	timedEmpty int
 }
 
@@ -343,6 +343,74 @@ func runHistory(r *vh.Rng, dbl bool, maxOps int, budget *int) *history {
 	return h
 }
 
+// scriptedHistories: short fixed histories that every run includes — the list re-used after Clear,
+// refusal and eviction at capacity 1 and 2, capacity lowered below the size, nil elements.
+func scriptedHistories() []history {
+	q := func(c1 int, ops ...qop) history { return history{c1: c1, c2: c1, ops: ops, stuck: -1} }
+	d := func(c1, c2 int, ops ...qop) history { return history{dbl: true, c1: c1, c2: c2, ops: ops, stuck: -1} }
+	p := func(x int) qop { return qop{Kind: "p", X: x} }
+	f := func(x int) qop { return qop{Kind: "f", X: x} }
+	g, n, x, sz := qop{Kind: "g"}, qop{Kind: "n"}, qop{Kind: "x"}, qop{Kind: "s"}
+	t0 := qop{Kind: "t", X: 0, Ms: 0}
+	c := func(a int) qop { return qop{Kind: "c", X: a} }
+	return []history{
+		q(0, p(1), x, p(2), sz, g, sz, n),                     // put, Clear, put, get
+		q(0, p(1), p(2), x, sz, p(3), p(4), g, g, n, sz),      // Clear of several, then reuse
+		q(2, p(1), x, x, p(2), p(3), p(4), f(5), g, g, n),     // Clear twice, fill, refuse, evict
+		q(1, p(1), p(2), f(3), f(4), g, n, x, f(5), t0, sz),   // capacity 1
+		q(5, p(1), p(2), p(3), p(4), c(2), f(5), sz, g, g, n), // capacity lowered below the size: evicts several
+		q(-1, p(0), p(1), n, g, p(0), t0, sz, x, p(2), t0),    // nil elements
+		q(0, x, n, t0, sz, p(1), x, n, p(2), n, n),            // Clear on empty
+		d(2, 2, qop{Kind: "p1", X: 1}, qop{Kind: "p2", X: 2}, x, qop{Kind: "p2", X: 3}, qop{Kind: "p1", X: 4}, sz, g, g, n, sz),
+		d(1, 1, qop{Kind: "p1", X: 1}, qop{Kind: "p1", X: 2}, qop{Kind: "f1", X: 3}, qop{Kind: "f2", X: 4}, qop{Kind: "f2", X: 5}, g, g, n),
+	}
+}
+
+func runScripted(sc history) *history {
+	h := &history{dbl: sc.dbl, c1: sc.c1, c2: sc.c2, stuck: -1}
+	m := &mirror{cap: [2]int{h.c1, h.c2}}
+	im := newImpl(h.dbl, h.c1, h.c2)
+	for i, o := range sc.ops {
+		// keep the mirror (used for the size comparison) in step
+		switch o.Kind[0] {
+		case 'p', 'f':
+			qi := 0
+			if strings.HasSuffix(o.Kind, "2") {
+				qi = 1
+			}
+			if m.room(qi) {
+				m.items[qi] = append(m.items[qi], o.X)
+			} else if o.Kind[0] == 'f' {
+				for len(m.items[qi]) >= m.cap[qi] {
+					m.items[qi] = m.items[qi][1:]
+				}
+				m.items[qi] = append(m.items[qi], o.X)
+			}
+		case 'g', 'n', 't':
+			m.pop()
+		case 'x':
+			m.items[0], m.items[1] = nil, nil
+		case 'c':
+			m.cap[0] = o.X
+			if h.dbl {
+				m.cap[1] = o.Y
+			}
+		}
+		h.ops = append(h.ops, o)
+		res, sz, out := im.apply(o)
+		if !out.OK() {
+			h.got = append(h.got, out.String())
+			h.sizes = append(h.sizes, -1)
+			h.stuck = i
+			break
+		}
+		h.got = append(h.got, res)
+		h.sizes = append(h.sizes, sz)
+		h.msizes = append(h.msizes, m.size())
+	}
+	return h
+}
+
 func (h *history) line() string {
 	ls := make([]string, len(h.ops))
 	for i, o := range h.ops {
@@ -356,13 +424,14 @@ func (h *history) line() string {
 
 // directProperty evaluates the property on the implementation's own observations of a history,
 // phrased as the property's clauses (it keeps only the list of elements currently owed):
-//   fifo        every delivered element is the oldest one owed (of queue 1 first, for the double queue)
-//   refusal     a put on a full queue returns false, calls the failure callback with exactly that
-//               element and leaves the size unchanged; a put with room returns true, no callback
-//   eviction    a forced put on a full queue reports the oldest elements, in order, until there is
-//               room, and ends with exactly `capacity` elements
-//   bounded     Size() never exceeds max(capacity, previous size) when the capacity is positive
-//   conservation nothing is delivered twice or without having been accepted; Size() equals what is owed
+//
+//	fifo        every delivered element is the oldest one owed (of queue 1 first, for the double queue)
+//	refusal     a put on a full queue returns false, calls the failure callback with exactly that
+//	            element and leaves the size unchanged; a put with room returns true, no callback
+//	eviction    a forced put on a full queue reports the oldest elements, in order, until there is
+//	            room, and ends with exactly `capacity` elements
+//	bounded     Size() never exceeds max(capacity, previous size) when the capacity is positive
+//	conservation nothing is delivered twice or without having been accepted; Size() equals what is owed
 func directProperty(h *history) string {
 	var live [2][]int
 	cap := [2]int{h.c1, h.c2}
@@ -469,8 +538,25 @@ func sequential(env *vh.Env, rep *vh.Report, rng *vh.Rng) {
 	}
 	var hs []*history
 	var lines []string
+	stuck := 0
+	for _, sc := range scriptedHistories() {
+		h := runScripted(sc)
+		hs = append(hs, h)
+		lines = append(lines, h.line())
+		rep.Count("seq:scripted")
+		if h.stuck >= 0 {
+			stuck++
+		}
+	}
 	for i := 0; i < nHist; i++ {
+		if stuck >= 3 {
+			rep.Note("sequential histories stopped after %d operations that never returned (each is reported)", stuck)
+			break
+		}
 		h := runHistory(rng, i%3 == 2, maxOps, &budget)
+		if h.stuck >= 0 {
+			stuck++
+		}
 		hs = append(hs, h)
 		lines = append(lines, h.line())
 		for _, o := range h.ops {
@@ -675,6 +761,7 @@ func concurrentRun(cfg concCfg) (fail string, detail map[string]interface{}) {
 		get, getT, size = q.Get, q.GetTimeout, q.Size
 	}
 
+	started := time.Now()
 	received := make([][]int, cfg.Consumers)
 	gotNil := make([]int, cfg.Consumers)
 	var cwg sync.WaitGroup
@@ -687,6 +774,9 @@ func concurrentRun(cfg concCfg) (fail string, detail map[string]interface{}) {
 				if cfg.Timed {
 					v = getT(20)
 					if v == nil {
+						if time.Since(started) > 15*time.Second {
+							return
+						}
 						continue
 					}
 				} else {
@@ -698,6 +788,9 @@ func concurrentRun(cfg concCfg) (fail string, detail map[string]interface{}) {
 				}
 				if x == 0 {
 					gotNil[c]++ // a blocking get must not come back empty-handed (no nil element is ever put here)
+					if gotNil[c] > 1000 && !cfg.Timed {
+						return // do not spin on a queue that hands out nothing forever
+					}
 					continue
 				}
 				received[c] = append(received[c], x)
@@ -820,7 +913,7 @@ func concurrent(env *vh.Env, rep *vh.Report, rng *vh.Rng) {
 	var stranded int32
 	for i := range cfgs {
 		if atomic.LoadInt32(&stranded) >= 2 {
-			break // every further round would only wait for its watchdog
+			break // every further round would only wait for its watchdog / repeat the same failure
 		}
 		wg.Add(1)
 		sem <- struct{}{}
@@ -828,7 +921,7 @@ func concurrent(env *vh.Env, rep *vh.Report, rng *vh.Rng) {
 			defer wg.Done()
 			defer func() { <-sem }()
 			f, d := concurrentRun(cfgs[i])
-			if f == "stranded" {
+			if f != "" {
 				atomic.AddInt32(&stranded, 1)
 			}
 			out[i] = res{cfgs[i], f, d}
@@ -968,10 +1061,26 @@ func main() {
 		rep.Write(env.Out)
 		return
 	}
-	sequential(env, rep, rng.Fork())
-	concurrent(env, rep, rng.Fork())
-	timed(env, rep)
-	knownFindings(rep)
+	deadline := 7 * time.Minute
+	if env.Thorough {
+		deadline = 40 * time.Minute
+	}
+	go func() {
+		time.Sleep(deadline)
+		rep.Fail("property", "harness:deadline", fmt.Sprintf("the harness did not finish within %v: some queue operation never returned; partial report written", deadline), nil)
+		rep.Write(env.Out)
+		os.Exit(0)
+	}()
+	phase := func(name string, d time.Duration, f func()) {
+		if o := vh.GuardTimeout(d, f); !o.OK() {
+			rep.Fail("property", "RequestQueue:"+name+"-"+o.String(), "the "+name+" part of the harness did not complete: an operation of the implementation never returned ("+vh.Clip(o.Panic, 200)+")", nil)
+		}
+	}
+	sequential(env, rep, rng.Fork()) // every call inside is under its own watchdog
+	phase("concurrent", deadline/2, func() { concurrent(env, rep, rng.Fork()) })
+	phase("timed", time.Minute, func() { timed(env, rep) })
+	phase("known-findings", 30*time.Second, func() { knownFindings(rep) })
 	_ = sort.Ints
 	rep.Write(env.Out)
+	os.Exit(0) // goroutines of operations that never returned are abandoned
 }
